@@ -48,8 +48,21 @@ class CxxModule:
     parameter names, parameter types and the indexes of the parameters bound by (non-const) reference.  Overloads are
     kept apart by arity ('name/2'); the plain name is the first overload."""
 
+    class _Fn:
+        """one function: parameter names / types, reference parameters, body (lowered on first use)"""
+
+        def __init__(self, f):
+            self.f = f
+            self.params = [p for p, _t in f.params]
+            self.ptypes = [t for _p, t in f.params]
+            self.loc = f.loc
+            self.byref = tuple(i for i, (_p, t) in enumerate(f.params) if t and '&' in t and not t.strip().startswith('const '))
+
+        @property
+        def body(self):
+            return self.f.body
+
     def __init__(self, lib, prefixes):
-        from types import SimpleNamespace
         self.funcs = {}
         self.overloads = {}
         self.lib = lib            # constants of the library are folded through it
@@ -57,8 +70,7 @@ class CxxModule:
             if not q.startswith(tuple(prefixes)):
                 continue
             for f in lib.fns(q):                 # instantiations, not the template pattern
-                ns = SimpleNamespace(params=[p for p, _t in f.params], ptypes=[t for _p, t in f.params], body=f.body, loc=f.loc,
-                                     byref=tuple(i for i, (_p, t) in enumerate(f.params) if t and '&' in t and not t.strip().startswith('const ')))
+                ns = CxxModule._Fn(f)
                 self.funcs.setdefault(q, ns)
                 self.funcs.setdefault('%s/%d' % (q, len(f.params)), ns)
                 self.overloads.setdefault('%s/%d' % (q, len(f.params)), []).append(ns)
@@ -76,6 +88,24 @@ class CxxModule:
             if ok:
                 return ns
         return cands[0] if cands else None
+
+
+def cxx_object(lib, cls, depth=0):
+    """an abstract object of a C++ class of the library: integer fields 0, pointer fields null, fields of class type
+    nested objects of the same kind (their declared integer widths recorded for typed evaluation)"""
+    from .cxx import int_type
+    attrs, ftypes = {}, {}
+    for n, t, _x in lib.fields(cls):
+        it = int_type(t)
+        if it:
+            attrs[n] = 0
+            ftypes[n] = it
+        elif t and ('*' in t or '&' in t):
+            attrs[n] = None
+        else:
+            sub = (t or '').replace('const ', '').strip()
+            attrs[n] = cxx_object(lib, sub, depth + 1) if (depth < 6 and lib.classes.get(sub)) else None
+    return AObj(attrs, cls=cls, ftypes=ftypes)
 
 
 class Raised(Exception):
@@ -171,6 +201,8 @@ class AEval:
                 env[p_] = self._wrap(v_, it)
             if it is not None:
                 env['\x00ty:' + p_] = it
+            if t_ and '*' in t_:
+                env['\x00ptr:' + p_] = True
         try:
             self.block(f.body, env, depth)
         except _Return as r:
@@ -199,6 +231,10 @@ class AEval:
             env.pop('\x00ref:' + a[0], None)
             if it is not None:
                 env['\x00ty:' + a[0]] = it
+            if self.typed and a[1] and '*' in a[1]:
+                env['\x00ptr:' + a[0]] = True
+            else:
+                env.pop('\x00ptr:' + a[0], None)
         elif k == 'expr':
             self.ev(a[0], env, depth)
         elif k == 'if':
@@ -256,8 +292,17 @@ class AEval:
     def store(self, tgt, v, env, depth):
         if tgt.k == 'var':
             v = self._wrap(v, env.get('\x00ty:' + tgt.a[0])) if self.typed else v
-            if env.get('\x00ref:' + tgt.a[0]) and isinstance(env.get(tgt.a[0]), Ref):
-                env[tgt.a[0]].set(v)
+            cur = env.get(tgt.a[0])
+            if env.get('\x00ref:' + tgt.a[0]) and isinstance(cur, Ref):
+                cur_v = cur.get()
+                if self.typed and isinstance(cur_v, AObj) and isinstance(v, AObj) and cur_v is not v:
+                    cur_v.attrs.clear()
+                    cur_v.attrs.update(v.attrs)      # assignment through a reference to an object copies the value into it
+                else:
+                    cur.set(v)
+            elif self.typed and isinstance(cur, AObj) and isinstance(v, AObj) and cur is not v and not env.get('\x00ptr:' + tgt.a[0]):
+                cur.attrs.clear()
+                cur.attrs.update(v.attrs)            # C++ value semantics: `obj = Class(...)` assigns into the object the name designates
             else:
                 env[tgt.a[0]] = v
         elif tgt.k == 'field':
@@ -301,8 +346,16 @@ class AEval:
                 return l * r
             if op == '//':
                 return l // r
+            if self.typed and op in ('/', '%') and isinstance(l, int) and isinstance(r, int):
+                if r == 0:
+                    raise Raised('division by zero', loc)
+                q = abs(l) // abs(r)
+                q = q if (l >= 0) == (r >= 0) else -q          # C++: quotient truncated towards zero
+                return q if op == '/' else l - q * r
             if op == '%%' or op == '%':
                 return l % r
+            if op in ('&', '|', '^', '<<', '>>') and isinstance(l, int) and isinstance(r, int):
+                return {'&': l & r, '|': l | r, '^': l ^ r, '<<': l << r, '>>': l >> r}[op]
             if op == '==':
                 return l is r if isinstance(l, AObj) or isinstance(r, AObj) else l == r
             if op == '!=':
@@ -417,6 +470,29 @@ class AEval:
             if a[0] in ('list', 'tuple', 'set'):
                 vals = [self.ev(x, env, depth) for x in a[1]]
                 return vals if a[0] == 'list' else tuple(vals)
+            if self.typed and isinstance(a[0], str) and getattr(self.module, 'lib', None) is not None:
+                # C++: a value of class type built by one of its constructors (member initialisers are stores to this.field)
+                lib = self.module.lib
+                cls = a[0].replace('const ', '').strip()
+                args = [self.ev(x, env, depth) for x in a[1]]
+                try:
+                    flds = lib.fields(cls)
+                except Exception:
+                    flds = None
+                if flds:
+                    from .cxx import int_type
+                    obj = AObj({n: None for n, _t, _x in flds}, cls=cls, ftypes={n: int_type(t) for n, t, _x in flds if int_type(t)})
+                    ctors = [c for c in lib.fns(cls + '::' + cls.split('::')[-1]) if len(c.params) == len(args)]
+                    if ctors:
+                        from types import SimpleNamespace
+                        c = ctors[0]
+                        ns = SimpleNamespace(params=[p for p, _t in c.params], ptypes=[t for _p, t in c.params], body=c.body, loc=c.loc, byref=())
+                        self.call_function(c.name, args, depth + 1, recv=obj, chosen=ns)
+                        return obj
+                    if len(flds) == len(args):
+                        for (n, t, _x), v in zip(flds, args):
+                            obj.attrs[n] = self._wrap(v, int_type(t))
+                        return obj
             raise AnalysisError('abstract evaluation: display %s at %s' % (a[0], e.loc))
         if k == 'call':
             return self.call(e, env, depth)
